@@ -38,6 +38,7 @@ macro_rules! dispatch_property {
         match $prop {
             "C01" | "C02" | "C03" | "C04" | "C05" | "C08" | "C09" | "C10" | "C11" | "C12" | "C13" | "C17" => $f(&engines::chaingen::ChainSim, $($arg),*),
             "C14" | "C15" | "C16" => $f(&engines::stakesim::StakeSim, $($arg),*),
+            "C20" => $f(&engines::buildsim::BuildSim, $($arg),*),
             "C06" => $f(&engines::kv06::Kv06, $($arg),*),
             "C07" => $f(&engines::pfx07::Pfx07, $($arg),*),
             _ => {
@@ -53,6 +54,7 @@ macro_rules! dispatch_engine {
         match $name {
             "chainsim" => $f(&engines::chaingen::ChainSim, $($arg),*),
             "stakesim" => $f(&engines::stakesim::StakeSim, $($arg),*),
+            "buildsim" => $f(&engines::buildsim::BuildSim, $($arg),*),
             "kvsim-overlay" => $f(&engines::kv06::Kv06, $($arg),*),
             "kvsim-prefix" => $f(&engines::pfx07::Pfx07, $($arg),*),
             _ => {
